@@ -18,8 +18,9 @@ Qed.
 
 Lemma f_write_empty d : f_write rf_empty d = mkRF d (length d).
 Proof.
-  unfold f_write, call, rf_empty. simpl. unfold overwrite. destruct d as [|x d]; [reflexivity|].
-  cbn [firstn length Nat.sub repeat app Nat.add rf_pos]. rewrite skipn_nil, app_nil_r. reflexivity.
+  unfold f_write, call, rf_empty. cbn [ref_step fst]. unfold write_at, overwrite. cbn [rf_data rf_pos].
+  destruct d as [|x d]; [reflexivity|].
+  cbn [firstn length Nat.sub repeat app Nat.add]. rewrite skipn_nil, app_nil_r. reflexivity.
 Qed.
 
 (* buffer.seek: the reference seek, and the file is flushed *)
@@ -169,6 +170,24 @@ Qed.
 Lemma iter_fuel f : length (lines (rest f)) < S (length (rf_data f)).
 Proof. pose proof (lines_count (rest f)). pose proof (rest_length_le f). lia. Qed.
 
+(* write(d) *)
+Lemma sb_write_spec s d :
+  sb_buf (sb_write s d) = write_at (sb_buf s) d /\ sb_max (sb_write s d) = sb_max s.
+Proof.
+  unfold sb_write. destruct (sb_rollover_buf s) as [R1 R2].
+  destruct (sb_max s <=? f_tell (sb_buf s) + length d); cbn [sb_with sb_buf sb_max];
+    rewrite ?R1, ?R2; auto.
+Qed.
+
+Lemma sb_writelines_spec ds : forall s,
+  sb_buf (fold_left sb_write ds s) = fold_left write_at ds (sb_buf s) /\
+  sb_max (fold_left sb_write ds s) = sb_max s.
+Proof.
+  induction ds as [|d ds IH]; intro s; cbn [fold_left]; [auto|].
+  destruct (IH (sb_write s d)) as [A B]. destruct (sb_write_spec s d) as [C D].
+  rewrite A, B, C, D. auto.
+Qed.
+
 (* one call: same value, same file afterwards *)
 Lemma sb_step_ref s op : ref_pre KBytes (sb_buf s) op = true ->
   sb_buf (fst (sb_step s op)) = fst (ref_step (sb_buf s) op) /\
@@ -176,12 +195,9 @@ Lemma sb_step_ref s op : ref_pre KBytes (sb_buf s) op = true ->
   sb_max (fst (sb_step s op)) = sb_max s.
 Proof.
   intros P.
-  destruct op as [d| |n|lim|hint| | | |off wh| | |].
+  destruct op as [d| |n|lim|hint| | | |off wh| | | |ds].
   - (* write *)
-    cbn [sb_step ref_step fst snd].
-    destruct (sb_rollover_buf s) as [R1 R2].
-    destruct (sb_max s <=? f_tell (sb_buf s) + length d); cbn [sb_with sb_buf sb_max];
-      rewrite ?R1, ?R2; auto.
+    cbn [sb_step ref_step fst snd]. destruct (sb_write_spec s d); auto.
   - simpl; auto.
   - cbn [sb_step]. unfold call. destruct (ref_step (sb_buf s) (Read n)) as [b o] eqn:E. cbn. auto.
   - (* readline *)
@@ -211,6 +227,7 @@ Proof.
     destruct (sb_getvalue s); cbn [fst snd] in *. subst; auto.
   - cbn [sb_step ref_step]. pose proof (sb_len_spec s) as [G1 [G2 G3]].
     destruct (sb_len s); cbn [fst snd] in *. subst; auto.
+  - cbn [sb_step ref_step fst snd]. destruct (sb_writelines_spec ds s); auto.
 Qed.
 
 (* the whole history *)
